@@ -132,3 +132,51 @@ func toVerifMsgs(in []deviceServiceInfo) []VerifServiceInfoMessage {
 	}
 	return out
 }
+
+// VerifDeviceAnswerRound runs the device's handling of one batch of owner
+// service info the way the loop of exchangeServiceInfo does: the owner's KVs
+// are piped to handleOwnerModuleMessages (with the given device modules, of
+// which those named in active are already activated) while
+// exchangeServiceInfoRound sends what the modules write, with the given budget,
+// to a recording transport. It returns the TO2.DeviceServiceInfo messages the
+// device sent.
+func VerifDeviceAnswerRound(ctx context.Context, mtu uint16, modules map[string]serviceinfo.DeviceModule, active []string, prevModuleName string, ownerInfo []*serviceinfo.KV) ([]VerifServiceInfoMessage, error) {
+	ctx, cancel := context.WithCancel(contextWithErrMsg(ctx))
+	defer cancel()
+
+	ownerInfoOut, ownerInfoIn := serviceinfo.NewChunkInPipe(1000)
+	for _, kv := range ownerInfo {
+		if err := ownerInfoIn.WriteChunk(kv); err != nil {
+			return nil, err
+		}
+	}
+	if err := ownerInfoIn.Close(); err != nil {
+		return nil, err
+	}
+
+	moduleMap := deviceModuleMap{modules: modules, active: make(map[string]bool)}
+	for _, name := range active {
+		moduleMap.active[name] = true
+	}
+
+	deviceInfo, deviceInfoIn := serviceinfo.NewChunkOutPipe(1000)
+	ctxWithMTU := context.WithValue(ctx, serviceinfo.MTUKey{}, mtu)
+	handled := make(chan string, 1)
+	go func() {
+		handled <- handleOwnerModuleMessages(ctxWithMTU, prevModuleName, moduleMap, ownerInfoOut, deviceInfoIn)
+	}()
+
+	rec := &verifRecorder{}
+	_, nextOwnerInfoIn := serviceinfo.NewChunkInPipe(1000)
+	_, _, err := exchangeServiceInfoRound(ctx, rec, mtu, deviceInfo, nextOwnerInfoIn, nil)
+	_ = nextOwnerInfoIn.Close()
+	if err != nil {
+		// let a module that is still writing finish
+		go discardDeviceInfo(deviceInfo)
+	}
+	select {
+	case <-handled:
+	case <-ctx.Done():
+	}
+	return toVerifMsgs(rec.msgs), err
+}
